@@ -1,3 +1,4 @@
+import LibconfigModel.Generated.Constants
 import LibconfigModel.WriterSpec
 import LibconfigModel.Proofs.C19
 /-
@@ -69,5 +70,14 @@ def sample : Config :=
 example : norm (wtoksConfig 341 (sample.withOut ⟨0, 0, 6, 1⟩)) =
           norm (wtoksConfig 341 (sample.withOut ⟨0x1e, 4, 2, 0⟩)) := by decide
 example : (sample.withOut ⟨0x02, 4, 6, 1⟩).write 341 = [97, 32, 61, 32, 123, 10, 32, 32, 32, 32, 98, 32, 61, 32, 48, 120, 70, 70, 59, 10, 125, 59, 10] := by decide
+
+/-- Bridge: the documented option bits, defaults and the clamp bound -/
+theorem C19_constants :
+    Generated.CONFIG_OPTION_SEMICOLON_SEPARATORS = OPT_SEMICOLON ∧
+    Generated.CONFIG_OPTION_COLON_ASSIGNMENT_FOR_GROUPS = OPT_COLON_GROUPS ∧
+    Generated.CONFIG_OPTION_COLON_ASSIGNMENT_FOR_NON_GROUPS = OPT_COLON_NONGROUPS ∧
+    Generated.CONFIG_OPTION_OPEN_BRACE_ON_SEPARATE_LINE = OPT_BRACE_SEPARATE ∧
+    Generated.CONFIG_OPTION_ALLOW_SCIENTIFIC_NOTATION = OPT_SCIENTIFIC ∧
+    Generated.DEFAULT_TAB_WIDTH = 2 ∧ Generated.DEFAULT_FLOAT_PRECISION = 6 ∧ Generated.CONFIG_FORMAT_HEX = FMT_HEX := by decide
 
 end Libconfig.C19
